@@ -21,7 +21,7 @@ class C08(Prop):
     PER_CASE_TIMEOUT = 30.0
 
     def gen(self, rng, tier):
-        n = 1500 if tier == "quick" else 15000
+        n = 3000 if tier == "quick" else 30000
         for i in range(n):
             yield bedgen68.bb_case(rng, tier, zoom_mode=rng.choice(["manual", "manual", "auto-small", "auto-small", "auto", "manual-odd"]),
                                    invalid=(i % 25 == 24))
